@@ -140,6 +140,42 @@ func checkC20(p *load.Program, r *kit.Report) {
 			}
 			ap := isCallTo(w.Val, "builtin.append")
 			if ap == nil {
+				// a peer stored at an index of the list (a list filled after it was sized): the
+				// same object is entered into lookup in the same iteration
+				st, isSt := w.Instr.(*ssa.Store)
+				if !isSt {
+					continue
+				}
+				if _, isElem := st.Addr.(*ssa.IndexAddr); !isElem {
+					continue
+				}
+				name := "StoragePeerRepository." + f.Name()
+				bad := ""
+				var mu ssa.Instruction
+				for _, w2 := range kit.DirectWrites(f) {
+					if w2.Field == lookupF && w2.Kind == "mapupdate" && kit.Strip(w2.Val) == kit.Strip(st.Val) {
+						mu = w2.Instr
+						if fl, base := kit.LoadedField(w2.Key); fl == nil || fl.Name() != "Address" || kit.Strip(base) != kit.Strip(st.Val) {
+							bad = "lookup is keyed by something other than the stored peer's address"
+						}
+					}
+				}
+				if mu == nil {
+					bad = "a peer is stored into the list while a different object (or none) is entered into lookup under its address: updates through lookup (UpdateScore, UpdateTime) no longer reach the peer that Get and Save read from the list"
+				} else {
+					header, _ := loopBodyEntry(f, w.Instr)
+					stop := []ssa.Instruction{mu}
+					rr := kit.Reach(f, kit.After(w.Instr), kit.Opts{StopAt: kit.InstrSet(stop...)})
+					if header != nil && rr.Has(header.Instrs[0]) {
+						bad = "an iteration stores a peer into the list without entering it into lookup"
+					}
+					for _, ret := range kit.Returns(f) {
+						if rr.Has(ret) {
+							bad = "a path stores a peer into the list and returns without updating lookup"
+						}
+					}
+				}
+				r.Check(bad == "", "PAIRED-UPDATE", name+"/element+lookup", posOf(p, w.Instr), "list[i] and lookup[address] receive the same peer on the same path", bad)
 				continue
 			}
 			name := "StoragePeerRepository." + f.Name()
@@ -554,7 +590,14 @@ func checkC20(p *load.Program, r *kit.Report) {
 				for _, w := range kit.DirectWrites(f) {
 					if (w.Field == listF || w.Field == lookupF) && w.Kind == "store" && rr.Has(w.Instr) {
 						if _, isAppend := kit.Strip(w.Val).(*ssa.Call); !isAppend && !keepsAccumulated(w.Val) {
-							bad = "the list is replaced after a decoding error"
+							if st, isSt := w.Instr.(*ssa.Store); isSt {
+								if _, isElem := st.Addr.(*ssa.IndexAddr); isElem {
+									continue // an element store: judged with the list it fills
+								}
+							}
+							if why := refilledFrom(f, w, listF); why != "" {
+								bad = "the list is replaced after a decoding error (" + why + ")"
+							}
 						}
 					}
 				}
@@ -649,4 +692,110 @@ func keepsAccumulated(v ssa.Value) bool {
 		return true
 	}
 	return false
+}
+
+// refilledFrom: the store w replaces repo.list by make(PeerList, len(X)) with X the list of decoded
+// peers (accumulated in the decoding loop), and a loop counting from 0 by 1 up to len(X) stores
+// element i of X (or its address) at index i of the new list. Returns "" when that holds.
+func refilledFrom(f *ssa.Function, w kit.Write, listF *types.Var) string {
+	mk, ok := kit.Strip(w.Val).(*ssa.MakeSlice)
+	if !ok {
+		return "not a list of the decoded peers: " + describe(kit.Strip(w.Val))
+	}
+	lenOf := func(v ssa.Value) ssa.Value {
+		c, ok := kit.Strip(v).(*ssa.Call)
+		if !ok {
+			return nil
+		}
+		if b, ok := c.Call.Value.(*ssa.Builtin); !ok || b.Name() != "len" {
+			return nil
+		}
+		return kit.Strip(c.Call.Args[0])
+	}
+	x := lenOf(mk.Len)
+	if x == nil || !keepsAccumulated(x) {
+		return "the new list is not sized by the number of decoded peers"
+	}
+	found := ""
+	n := 0
+	kit.AllInstrs(f, func(in ssa.Instruction) {
+		st, ok := in.(*ssa.Store)
+		if !ok {
+			return
+		}
+		dst, ok := st.Addr.(*ssa.IndexAddr)
+		if !ok || !(loadOfField(dst.X, listF) || kit.Strip(dst.X) == ssa.Value(mk)) {
+			return
+		}
+		n++
+		// source: X[i] or &X[i] with the same index value
+		var src *ssa.IndexAddr
+		kit.DependsOnNoPhi(st.Val, func(v ssa.Value) bool {
+			if ia, ok := v.(*ssa.IndexAddr); ok && kit.Strip(ia.X) == x {
+				src = ia
+				return true
+			}
+			return false
+		})
+		if src == nil || kit.Strip(src.Index) != kit.Strip(dst.Index) {
+			found = "element i of the new list is not decoded peer i"
+			return
+		}
+		// the index counts 0, 1, 2, … below len(X)
+		idx := kit.Strip(dst.Index)
+		var ph *ssa.Phi
+		k := int64(0)
+		switch y := idx.(type) {
+		case *ssa.Phi:
+			ph = y
+		case *ssa.BinOp:
+			if c, isC := kit.ConstInt(y.Y); isC && y.Op == token.ADD {
+				ph, _ = y.X.(*ssa.Phi)
+				k = c
+			}
+		}
+		if ph == nil {
+			found = "the fill index is not a simple loop counter"
+			return
+		}
+		var init, step ssa.Value
+		for _, e := range ph.Edges {
+			if _, isC := kit.ConstInt(e); isC {
+				init = e
+			} else {
+				step = e
+			}
+		}
+		if init == nil || step == nil {
+			found = "the fill index is not a simple loop counter"
+			return
+		}
+		c0, _ := kit.ConstInt(init)
+		sb, isB := step.(*ssa.BinOp)
+		if c0+k != 0 || !isB || sb.Op != token.ADD || sb.X != ssa.Value(ph) {
+			found = "the fill does not start at the first decoded peer and advance by one"
+			return
+		}
+		if c, isC := kit.ConstInt(sb.Y); !isC || c != 1 {
+			found = "the fill does not advance by one"
+			return
+		}
+		bounded := false
+		for _, b := range f.Blocks {
+			if ifi, ok := b.Instrs[len(b.Instrs)-1].(*ssa.If); ok {
+				if bo, ok := ifi.Cond.(*ssa.BinOp); ok && bo.Op == token.LSS && (kit.Strip(bo.X) == idx || kit.Strip(bo.X) == ssa.Value(ph) || bo.X == step) {
+					if y := lenOf(bo.Y); y != nil && (y == x || y == ssa.Value(mk) || loadOfField(y, listF)) {
+						bounded = true
+					}
+				}
+			}
+		}
+		if !bounded {
+			found = "the fill loop is not bounded by the number of decoded peers"
+		}
+	})
+	if n == 0 {
+		return "the new list is never filled"
+	}
+	return found
 }
